@@ -514,6 +514,16 @@ class Builder:
         if homogeneous:
             fill = {'u': subs[0], 'ranges': [list(r) for r in ranges],
                     'univs': None, 'tr': tr}
+            if tr is None and mat != 0 and d(st.integers(0, 5)) == 0 and \
+                    not force.get('homogeneous') and \
+                    not self.opts.get('homogeneous'):
+                # a lattice of the cell's own material: FILL=<own universe>,
+                # or no FILL keyword at all (the README's first example)
+                fill['u'] = u
+                fill['implicit'] = d(st.booleans())
+                self.labels.add('lat:own-material' +
+                                (':no-fill-keyword' if fill['implicit']
+                                 else ''))
             opt = '%d,' % cid + ','.join('%d:%d' % r for r in ranges)
             self.deck['lattice_opts'].append(opt)
             self.labels.add('lat:homogeneous')
